@@ -1,5 +1,6 @@
 import SodiumModel.Driver.Common
 import SodiumModel.Model.Hash
+import SodiumModel.Model.Poly1305Donna
 import SodiumModel.Model.Utils
 import SodiumModel.Spec.Sha256
 import SodiumModel.Spec.Sha512
@@ -22,6 +23,16 @@ def hmacChunks {σ : Type} (H : HashOps σ) (key : Bytes) (cs : List Bytes) : By
 
 def polyChunks (key : Bytes) (cs : List Bytes) : Bytes :=
   polyFinish polyBlkNat polyFinNat (cs.foldl (polyUpdate polyBlkNat) (polyInitNat key))
+
+/-- `onetimeauth`: messages up to 1024 bytes go through the 64-bit limb model of
+    poly1305_donna64.h (Model/Poly1305Donna.lean: UInt64 limbs, 128-bit products, carry chains,
+    final reduction and pad addition), in exactly the chunking the op line carries (a single chunk
+    is also the one-shot call, which in the C is init/update/final as well); longer messages use
+    the abstract (r, s, acc) instantiation.  Properties/C04Poly.lean proves both equal
+    `Spec.Poly1305.mac`. -/
+def polyChunksLimb (key : Bytes) (cs : List Bytes) : Bytes :=
+  if cs.foldl (fun n c => n + c.length) 0 ≤ 1024 then Poly1305Donna.macChunks key cs
+  else polyChunks key cs
 
 def b2Chunks (outlen : Nat) (key salt personal : Bytes) (cs : List Bytes) : String :=
   if outlen = 0 ∨ outlen > 64 ∨ key.length > 64 then "-1" else
@@ -63,7 +74,7 @@ def handle (op : String) (args : List String) : Option String :=
   | "shorthash", [alg, key, msg] => do
     let key ← ofHex key; let msg ← ofHex msg
     if alg = "24" then some (toHex (SipHash.siphash24 key msg)) else some (toHex (SipHash.siphashx24 key msg))
-  | "onetimeauth", key :: cs => do some (toHex (polyChunks (← ofHex key) (← hexList cs)))
+  | "onetimeauth", key :: cs => do some (toHex (polyChunksLimb (← ofHex key) (← hexList cs)))
   | "kdf.hkdf256.extract", salt :: cs => do some (toHex (hmacChunks H256 (← ofHex salt) (← hexList cs)))
   | "kdf.hkdf512.extract", salt :: cs => do some (toHex (hmacChunks H512 (← ofHex salt) (← hexList cs)))
   | "kdf.hkdf256.expand", [n, ctx, prk] => do some (hres (hkdfExpand H256 (← parseNat? n) (← ofHex ctx) (← ofHex prk)))
